@@ -158,6 +158,13 @@ class Ctx:
         """make_test(settings_decorator) -> zero-arg Hypothesis test.  Runs it in seeded chunks until the
         example count or the time budget is reached.  A failing chunk yields a shrunk Violation."""
         from hypothesis import settings, seed as hseed, HealthCheck, Phase
+        try:
+            # shrinking a case whose every evaluation builds a font and shapes through the driver is slow; a smaller
+            # reproduction is nice to have, a verdict within the tier's budget is the point (default cap: 300 s)
+            import hypothesis.internal.conjecture.engine as _eng
+            _eng.MAX_SHRINKING_SECONDS = 60 if self.tier == 'quick' else 240
+        except Exception:
+            pass
         chunk = chunk or max(20, min(examples, 250))
         done = 0
         ci = 0
